@@ -121,6 +121,7 @@ package procbuilder
 //@   trusted
 //@   pure
 
+//@ props C09 C04 C02
 // One processor tick: only this VM changes. Scope: no per-opcode delay model configured (with one, GetValue draws
 // from the process-wide math/rand source by design, which is outside the VM).
 //@ func (vm *VM) Step(psc *SimConfig) (string, error)
@@ -133,6 +134,7 @@ package procbuilder
 //@         vm.InputsRecv[*], vm.OutputsRecv[*], vm.Extra_states[*], vm.DeferredInstructions[*],
 //@         vm.Mach.*, vm.Mach.Op[*], vm.Mach.Modes[*], vm.Mach.Slocs[*], vm.Mach.Vars[*], psc.*
 //@   frameonly
+//@ props C09
 
 // A forked VM shares no mutable container with its source: the maps and the delay array are freshly allocated.
 //@ func (vm *VM) CopyState(vmSource *VM) error
